@@ -45,7 +45,7 @@ def generate(seed, run, tier):
     if kind == 'mps':
         names = ['params_bit', 'ops_bit'][:n_metrics]
     mode = sw.choice(['given', 'derived'])
-    n_epochs = sw.choice([1, 2, 3, 4, 5, 7, 10, 20, 33, 50])
+    n_epochs = sw.choice([1, 2, 3, 4, 5, 7, 10, 20, 33, 50]) if sw.chance(0.5) else sw.randint(1, 50)
     faults = {k: sw.chance(0.5) for k in ('repeat', 'skip', 'back', 'late_start', 'overshoot')}
     length = sw.randint(3, 14 if tier == 'quick' else 40)
     p_other_n = sw.choice([0.0, 0.0, 0.2, 0.5])
